@@ -73,4 +73,13 @@ fn stack_expand_h() {
     kani::cover!(true, "RETURNED");
 }
 
+/// without the `alloc` feature the default backend is the heap-free `Empty`
+#[cfg(not(feature = "alloc"))]
+fn default_is_empty_h() {
+    kani::assert(core::any::TypeId::of::<crate::mem::Default>() == core::any::TypeId::of::<Empty>(), "C19: without `alloc` the default backend is Empty");
+    let v: crate::AnyVec = crate::AnyVec::new::<u64>();
+    kani::assert(v.capacity() == 0 && v.len() == 0, "C19: the default vector is the zero-capacity Empty-backed vector");
+    kani::cover!(true, "REACHED");
+}
+
 include!("k1_mem.inst.rs");
